@@ -468,7 +468,7 @@ package storage
 //@   assert crash_loadable_wr at after store.Write : [C10] loadableAt(q(height))
 //@   ensures rejected: height > old(repo.height) || height < 0 ==> result != nil && stsame() && memSame(repo) && heightsSame(repo)
 //@   ensures failed_memory_unchanged: result != nil ==> memSame(repo) && heightsSame(repo)
-//@   ensures failed_store_consistent: [C09 C10] result != nil ==> InvFull(repo) && InvTop(repo)
+//@   ensures failed_store_consistent: [only C09 C10] result != nil ==> InvFull(repo) && InvTop(repo)
 //@   ensures reverted: result == nil ==> repo.height == height && 0 <= height && height <= old(repo.height) && InvMem(repo)
 //@   ensures chain_prefix: result == nil ==> forall(k, 0, len(repo.lastHeaders), repo.lastHeaders[k] == old(Hdr(repo, 1000*q(height) + k)))
 //@   ensures stored: result == nil ==> fileIs(q(height), repo.lastHeaders) && InvTop(repo)
